@@ -119,7 +119,11 @@ impl Stats {
         *self.capacity.entry(inv.knobs.capacity).or_insert(0) += 1;
         *self.files_per_tree.entry(nfiles).or_insert(0) += 1;
         if !o.arrival.is_empty() && o.arrival.len() <= 6 && o.class == ResultClass::Ok {
-            self.perms.entry(o.arrival.len()).or_default().insert(o.arrival.clone());
+            // arrival order as a permutation: rank of each file tag among the tags that arrived
+            let mut sorted = o.arrival.clone();
+            sorted.sort_unstable();
+            let perm: Vec<u32> = o.arrival.iter().map(|t| sorted.iter().position(|s| s == t).unwrap_or(0) as u32).collect();
+            self.perms.entry(o.arrival.len()).or_default().insert(perm);
         }
         self.pipe_states.extend(o.pipe_states.iter().cloned());
         self.max_tasks = self.max_tasks.max(o.max_tasks);
